@@ -170,6 +170,8 @@ SET_OF_decode_oer(const asn_codec_ctx_t *opt_codec_ctx,
 
         ASN_DEBUG("OER SET OF %s Decoding PHASE 1", td->name);
 
+        if(ctx->left > 0 && !elm->type->op->oer_decoder) RETURN(RC_FAIL);
+
         for(; ctx->left > 0; ctx->left--) {
             asn_dec_rval_t rv = elm->type->op->oer_decoder(
                 opt_codec_ctx, elm->type,
@@ -266,6 +268,7 @@ SET_OF_encode_oer(const asn_TYPE_descriptor_t *td,
         void *memb_ptr = list->array[n];
         asn_enc_rval_t er;
         if(!memb_ptr) ASN__ENCODE_FAILED;
+        if(!elm->type->op->oer_encoder) ASN__ENCODE_FAILED;
         er = elm->type->op->oer_encoder(
             elm->type, elm->encoding_constraints.oer_constraints, memb_ptr, cb,
             app_key);
